@@ -354,3 +354,65 @@ def r6(rr, repo):
                 ok = "['cid']" in key and ".get('uid'" in key and '+' in key
                 rr.ob("the wait set is keyed by env['cid'] + env.get('uid', '')", ok, za.mod, e.node, witness=key[-120:], key='keyed-by-cid-uid')
     rr.floor('client stores in poll_recv', k, 1, za.mod, za.S_poll)
+
+
+def request_mark_obligations(rr, repo, marks=('eph', 'new')):
+    """request() reuses one dict for all sources: simulate the 'eph' / 'new' marks along every path over TWO sources and
+    compare what each source is sent with that source's own state."""
+    za = anchors(repo)
+    ev = za.ev(unroll_for=2)
+    ps = ev.run(za.R_req.body, za.start(za.R_req))
+    rr.paths += len(ps)
+    n = 0
+    for p in ps:
+        state = {'eph': False, 'new': False}
+        feasible = True
+        timeline = []
+        for i in range(len(p.pc) + 1):
+            timeline += [('ev', e) for e in p.events if e.pc_len == i]
+            if i < len(p.pc):
+                timeline.append(('fact', p.pc[i]))
+        sends = []
+        for kind, x in timeline:
+            if kind == 'fact':
+                k, v = x
+                m = re.match(r"in\('(eph|new)', ", k)
+                if m and isinstance(v, bool) and v != state[m.group(1)]:
+                    feasible = False
+                    break
+                continue
+            e = x
+            for mk in ('eph', 'new'):
+                if e.kind in ('store', 'augstore') and e.term.endswith(f"['{mk}']"):
+                    state[mk] = True
+                elif e.kind == 'del' and e.term.endswith(f"['{mk}']"):
+                    state[mk] = False
+                elif e.kind == 'call' and e.term.endswith('.pop') and e.args and e.args[0].strip('\'"') == mk:
+                    state[mk] = False
+                elif e.kind == 'call' and e.term.endswith('.clear') and 'cid' in e.term:
+                    state[mk] = False
+            if e.kind == 'call' and e.term.endswith('.send_push'):
+                sends.append((e, dict(state)))
+        if not feasible:
+            continue
+        for e, st in sends:
+            recv = e.term[:-len('.send_push')]
+            eph = p.facts.get(f'truthy({recv}.ephemeral)')
+            conn = p.facts.get(f'truthy({recv}.conn)')
+            n += 1
+            second = recv.startswith('__elem2__')
+            if 'eph' in marks:
+                if eph is None:
+                    rr.violated("a request is sent without looking at the source's ephemeral mark", za.mod, e.node, witness=p.pc_text()[-200:], key='eph-untested')
+                else:
+                    rr.ob("the request sent to a source carries 'eph' exactly when THAT source is ephemeral (a mark set for an earlier source must not leak to a later synchronized one: its publisher would stop waiting for this consumer)",
+                          st['eph'] == bool(eph), za.mod, e.node, witness=f'{"second" if second else "first"} source: ephemeral={eph}, eph mark present={st["eph"]}; {p.pc_text()[-160:]}', key=f'eph-mark|{st["eph"]}|{eph}')
+            if 'new' in marks and conn is not None:
+                rr.ob("the request carries 'new' exactly while THAT source has not been heard", st['new'] == (conn is False), za.mod, e.node,
+                      witness=f'{"second" if second else "first"} source: conn={conn}, new mark present={st["new"]}', key=f'new-mark|{st["new"]}|{conn}')
+    rr.floor('request sends examined over two sources', n, 4, za.mod, za.R_req)
+
+
+@rule('C04.R7', "a synchronized source is never asked as if it were ephemeral: the per-source 'eph' mark of request() does not leak from one source to the next")
+def r7(rr, repo):
+    request_mark_obligations(rr, repo, marks=('eph',))
